@@ -967,6 +967,8 @@ def argsort(x, axis=-1, kind=None):
 
 
 def sort(x, axis=-1):
+    if hasattr(x, "_symq_value") and not isinstance(x, SymArray):
+        x = x._symq_value()
     x = x if isinstance(x, SymArray) else SymArray(_obj(x))
     if x.a.ndim != 1:
         raise UnsupportedByShim("sort of ndim != 1")
